@@ -76,11 +76,18 @@ package functioncontracts
 //@ -- F14: such returns were skipped and a function that returns nil under an opaque condition got a contract).
 //@ -- add returns a set that contains the table (body verified: either it was there, or it is appended)
 //@ func (nilnessTable).equals
+//@ pure
 //@ nobody
 //@ func add
 //@ prop C20
 //@ modifies *
 //@ ensures result-is-not-empty (>= (len result0) 1)
+//@ -- a table is only left out when an EQUAL table is already in the set (a table with fewer facts is a path on which
+//@ -- less is known - a possible counterexample to the contract - and must not be absorbed by one with more facts);
+//@ -- otherwise it becomes the last table of the set and the earlier tables are kept
+//@ ensures dropped-only-if-an-equal-table-is-present (=> (not result1) (and (= result0 s) (exists ((k Int)) (and (<= 0 k) (< k (len s)) (call |(go.uber.org/nilaway/assertion/function/functioncontracts.nilnessTable).equals| (idx s k) t)))))
+//@ ensures added-as-the-last-table (=> result1 (and (= (len result0) (+ (len s) 1)) (= (idx result0 (len s)) t)
+//@    (forall ((k Int)) (=> (and (<= 0 k) (< k (len s))) (= (idx result0 k) (idx s k))))))
 //@ loop 0 invariant scanning (and (<= -1 rangeindex) (< rangeindex (len s)))
 //@ func newNilnessTableSet
 //@ nobody
